@@ -40,12 +40,12 @@ func concEpisode(o *potsOut, run int, r *rand.Rand, race bool) {
 	for i := 0; i < r.Intn(2*max); i++ {
 		switch r.Intn(4) {
 		case 0, 1:
-			applySeat(m, SOp{"Join", r.Intn(max), pid})
+			applySeat(m, SOp{Op: "Join", Seat: r.Intn(max), P: pid})
 			pid++
 		case 2:
-			applySeat(m, SOp{"SitIn", r.Intn(max), 0})
+			applySeat(m, SOp{Op: "SitIn", Seat: r.Intn(max), P: 0})
 		case 3:
-			applySeat(m, SOp{"Next", -1, 0})
+			applySeat(m, SOp{Op: "Next", Seat: -1, P: 0})
 		}
 	}
 	pre := projSeat(m)
